@@ -4,6 +4,5 @@ CONSTANTS
   ResetRecurses = TRUE
   PowerShortCircuitChecksExponent = TRUE
   AccumulatorAdds = TRUE
-INVARIANT Emit
-INVARIANT DesignOK
+INVARIANT Judged
 CHECK_DEADLOCK FALSE
